@@ -246,6 +246,14 @@ class PipelineSim(WorldBase):
                                        epl=line_elems if kind == "cache" else 1, upper=upper,
                                        staging=(kind == "buffet"))
                 spec["pbits"] = pb
+                if upper is None and g.random() < 0.4:
+                    # the binding may name the coordinate, the payload or the whole element (coordinate + payload);
+                    # what one such thing occupies decides how many of them share a line
+                    bt = g.choice(["coord", "elem", "elem"])
+                    cb = g.choice([16, 32, 32, 64] if bt == "coord" else [0, 16, 32])
+                    bits = cb if bt == "coord" else cb + 32
+                    if bits <= 32 * line_elems:
+                        spec["btype"], spec["cbits"] = bt, cb
                 if kind == "cache" and ntens == 1 and spec["wrows"] is not None and g.random() < 0.6:
                     # the tensor declares a smaller shape than the positions touched: positions at or beyond it
                     # are the insertion staging area, in the read trace and in the write trace alike
@@ -255,7 +263,7 @@ class PipelineSim(WorldBase):
                 tens.append(spec)
             bindings = []
             for spec in tens:
-                b = {"tensor": spec["tensor"], "rank": order[-1], "type": "payload"}
+                b = {"tensor": spec["tensor"], "rank": order[-1], "type": spec.get("btype", "payload")}
                 if kind == "buffet":
                     b["evict-on"] = g.choice(["root"] + order[:-1]) if len(order) > 1 else "root"
                 bindings.append(b)
@@ -458,7 +466,7 @@ class PipelineSim(WorldBase):
         for name in a["names"]:
             if name not in self.traces:
                 continue
-            key = "-".join([name, a["rank"], "payload"])
+            key = "-".join([name, a["rank"], self.traces[name].get("btype", "payload")])
             base = os.path.join(self.dir, f"{name}-read")
             for fn in (f"{base}-comb-{key}.csv", f"{base}-comb-{key}-next-{key}.csv"):
                 with open(fn, "w") as f:
@@ -483,7 +491,9 @@ class PipelineSim(WorldBase):
             t = Tensor(rank_ids=list(spec["tranks"]), shape=list(spec["shape"]))
             fs = {}
             for r in spec["tranks"]:
-                fs[r] = {"format": spec["fmt"], "pbits": spec.get("pbits", {}).get(r, 32), "cbits": 32}
+                fs[r] = {"format": spec["fmt"], "pbits": spec.get("pbits", {}).get(r, 32), "cbits": spec.get("cbits", 32)}
+                if spec.get("btype") == "elem" and r == spec["order"][-1]:
+                    fs[r]["layout"] = "interleaved"       # an "elem" binding needs an array-of-structs rank
             fmts[name] = Format(t, fs)
         return fmts
 
@@ -506,9 +516,10 @@ class PipelineSim(WorldBase):
                 for name in a["tensors"]:
                     spec = self.traces[name]
                     rank = spec["order"][-1]
-                    trace_fns[(name, rank, "payload", "read")] = self.path(name, "read")
+                    bt = spec.get("btype", "payload")
+                    trace_fns[(name, rank, bt, "read")] = self.path(name, "read")
                     if spec.get("wrows") is not None:
-                        trace_fns[(name, rank, "payload", "write")] = self.path(name, "write")
+                        trace_fns[(name, rank, bt, "write")] = self.path(name, "write")
                     if spec.get("upper") and any(b["rank"] == spec["upper"]["rank"] for b in a["bindings"]):
                         ur = spec["upper"]["rank"]
                         trace_fns[(name, ur, "payload", "read")] = self.path(name + "." + ur, "read")
@@ -634,7 +645,12 @@ class PipelineSim(WorldBase):
             spec = self.traces[name]
             order = spec["order"]
             pb = spec.get("pbits", {}).get(b["rank"], 32)
+            cb = spec.get("cbits", 32)
+            # what the binding names: a coordinate, a payload, or an element (both) - whatever the rank's format
+            pb = {"payload": pb, "coord": cb, "elem": cb + pb}[b.get("type", "payload")]
             epl = line // pb
+            if b.get("type", "payload") != "payload":
+                self.probe("binding_type_" + b["type"])
             up = spec.get("upper")
             if up and b["rank"] == up["rank"]:
                 nr = up["nr"]
